@@ -611,7 +611,7 @@ def check(ctx, case, record=True):
 
 def plan(tier, seed):
     if tier == "quick":
-        r, b, n = 1200, 200, 8
+        r, b, n = 900, 160, 8
     else:
         r, b, n = 15000, 2500, 16
     tasks = []
